@@ -24,6 +24,27 @@ CHECKS = {
          "sequences of every length by induction (Forall2), reverse variants, involution, DNA/RNA T<->U, and "
          "add_constraints = position-wise intersection / ConstraintError iff some intersection is empty.",
     design="DESIGN.md 7 (C17)", technique="Coq proof over regenerated tables (vm_compute on finite domain, induction for sequences) + correspondence"),
+ "C18": dict(
+    text="Proof: over the unit tables regenerated from the code on every run: every generated scale is the ideal decimal "
+         "value (ints) or the double nearest to it; every rate unit the grammar accepts is known to convert_units in the "
+         "right family; families are disjoint; the float-level model (Python int/float semantics on PrimFloat, "
+         "correctly rounded int->float and int/int) answers unknown units with ValueError, mixed families with an "
+         "exception, and returns a number only within one family; exact rational layer: identity, composition, "
+         "inversion, one inverse factor per unit for rate constants and round trip. Partial: the float error bound "
+         "|convF - exact| <= 3 ulp is stated (conv_float_close_full) but not proved; it is checked per case by the "
+         "oracle. Model tied to the code bit-exactly (vm_compute inside Coq vs Python through mantissa/exponent) on "
+         "all unit pairs x values over 600 decades, huge ints, rate units of arity 1-3.",
+    design="DESIGN.md 7 (C18)", technique="Coq proof over regenerated tables + rational algebra; PrimFloat model evaluated by vm_compute, bit-exact correspondence",
+    note=BASE_NOTE + " PrimFloat/PrimInt63 kernel primitives appear in Print Assumptions (not axioms of this development). "
+         "Known finding (open): flint on ints not representable as doubles."),
+ "C16": dict(
+    text="Proof (static clause): every LOAD_GLOBAL / module-level LOAD_NAME of every code object of the package, regenerated "
+         "from the bytecode on every run, refers to a name bound in its module or builtins (kernel-checked finite "
+         "computation). Partial: the dynamic clauses (no interpreter-level fault from read_pil, ignored reactions survive, "
+         "failed reads leave held objects valid) are not yet theorems about a reader model; every run executes "
+         "single-fault corruptions of generated documents (30 fault kinds) and token-level multi-fault mutations against "
+         "the implementation and reports any undeclared exception as a violation with the document as replay.",
+    design="DESIGN.md 7 (C16)", technique="Coq proof over the regenerated global-reference table; fault-stream exploration of the reader as support"),
 }
 
 NOT_YET = {}
